@@ -25,6 +25,14 @@ pub trait Subject: Send + Sync + 'static {
     /// invariant evaluated in every reachable state
     fn check(&self, obj: &Self::Obj, hist: &[Self::Op], acc: &mut Acc);
     fn op_json(&self, op: &Self::Op) -> Value;
+    /// replayable description of a history (+ the operation about to be applied)
+    fn case_json(&self, hist: &[Self::Op], op: Option<&Self::Op>) -> Value {
+        let mut v: Vec<Value> = hist.iter().map(|o| self.op_json(o)).collect();
+        if let Some(o) = op {
+            v.push(self.op_json(o));
+        }
+        serde_json::json!({ "history": v })
+    }
 }
 
 #[derive(Clone, Debug)]
@@ -54,9 +62,20 @@ pub struct HModel<S: Subject> {
     pub max_depth: usize,
     /// true: key states on canon only (closing search, no depth bound needed)
     pub closing: bool,
+    /// trace mode: every history is logged (flushed) before it is applied/checked, so that an abort
+    /// (stack overflow, allocation failure) or a hang can be attributed to it
+    pub trace: Option<Mutex<std::fs::File>>,
 }
 
 impl<S: Subject> HModel<S> {
+    fn log(&self, hist: &[S::Op], op: Option<&S::Op>) {
+        if let Some(t) = &self.trace {
+            use std::io::Write;
+            let mut f = t.lock().unwrap();
+            let _ = writeln!(f, "history\t{}", self.subject.case_json(hist, op));
+            let _ = f.flush();
+        }
+    }
     fn rebuild(&self, hist: &[S::Op]) -> S::Obj {
         let mut scratch = Acc::new();
         let mut obj = self.subject.init();
@@ -86,9 +105,17 @@ impl<S: Subject> Model for HModel<S> {
         actions.extend(self.subject.ops(&obj, &state.hist));
     }
     fn next_state(&self, last: &Self::State, action: Self::Action) -> Option<Self::State> {
+        self.log(&last.hist, Some(&action));
         let mut obj = self.rebuild(&last.hist);
         let mut local = Acc::new();
         self.subject.apply(&mut obj, &action, &mut local, &last.hist);
+        // the invariant is also evaluated here in trace mode so that the culprit is the logged history
+        if self.trace.is_some() {
+            let mut h2 = last.hist.clone();
+            h2.push(action.clone());
+            let mut scratch = Acc::new();
+            self.subject.check(&obj, &h2, &mut scratch);
+        }
         local.count("transitions", 1);
         let mut hist = last.hist.clone();
         hist.push(action);
@@ -116,13 +143,20 @@ impl<S: Subject> Model for HModel<S> {
 
 /// Run the search to the given depth with all cores; returns what was observed.
 pub fn explore<S: Subject>(subject: S, max_depth: Option<usize>, threads: usize) -> Acc {
+    explore_traced(subject, max_depth, threads, None)
+}
+
+/// `trace_path`: append-mode log of every history (single-threaded when given)
+pub fn explore_traced<S: Subject>(subject: S, max_depth: Option<usize>, threads: usize, trace_path: Option<&str>) -> Acc {
     let acc = Arc::new(Mutex::new(Acc::new()));
     let model = HModel {
         subject: Arc::new(subject),
         acc: acc.clone(),
         max_depth: max_depth.unwrap_or(usize::MAX),
         closing: max_depth.is_none(),
+        trace: trace_path.map(|p| Mutex::new(std::fs::OpenOptions::new().create(true).append(true).open(p).expect("trace file"))),
     };
+    let threads = if trace_path.is_some() { 1 } else { threads };
     let checker = model.checker().threads(threads).spawn_bfs().join();
     let unique = checker.unique_state_count();
     let generated = checker.state_count();
